@@ -674,9 +674,18 @@ func (w *c01World) sliceSummary(f *c01Func) *c01Prov {
 	return &p
 }
 
-func c01Atoms(s map[string]bool) string {
+// mesh parameters are numbered by their rank among the mesh parameters in the output (receiver or first mesh argument = 0)
+func c01Atoms(s map[string]bool, rank map[int]int) string {
 	var as []string
 	for a := range s {
+		var i, f int
+		if strings.HasPrefix(a, "recv ") {
+			fmt.Sscanf(a, "recv %d %d", &i, &f)
+			a = fmt.Sprintf("recv %d %d", rank[i], f)
+		} else if strings.HasPrefix(a, "elem ") {
+			fmt.Sscanf(a, "elem %d %d", &i, &f)
+			a = fmt.Sprintf("elem %d %d", rank[i], f)
+		}
 		as = append(as, a)
 	}
 	sort.Strings(as)
@@ -688,7 +697,8 @@ func c01Atoms(s map[string]bool) string {
 }
 
 // args: the file whose exported Mesh-returning functions are summarised, then further files / directories whose
-// functions may be resolved as callees
+// functions may be resolved as callees; an argument prefixed with "+" is also a target (its exported functions returning
+// exactly one modeling.Mesh are summarised; names are prefixed with the package name)
 func c01Classes(repo, out string, args []string) error {
 	if len(args) == 0 {
 		return fmt.Errorf("c01.classes: no files given")
@@ -696,6 +706,11 @@ func c01Classes(repo, out string, args []string) error {
 	w := &c01World{fset: token.NewFileSet(), funcs: map[string][]*c01Func{}}
 	var targets []*c01Func
 	for ai, a := range args {
+		isTarget := ai == 0
+		if strings.HasPrefix(a, "+") { // a further file / directory whose exported Mesh-returning FUNCTIONS are summarised
+			isTarget = true
+			a = a[1:]
+		}
 		p := filepath.Join(repo, a)
 		st, err := os.Stat(p)
 		if err != nil {
@@ -739,7 +754,7 @@ func c01Classes(repo, out string, args []string) error {
 					}
 				}
 				w.funcs[fd.Name.Name] = append(w.funcs[fd.Name.Name], f)
-				if ai == 0 && fd.Name.IsExported() && w.returnsMesh(f) && (fd.Recv == nil || f.isMesh[0]) {
+				if isTarget && fd.Name.IsExported() && w.returnsMesh(f) && (fd.Recv == nil || f.isMesh[0]) {
 					targets = append(targets, f)
 				}
 			}
@@ -756,7 +771,17 @@ func c01Classes(repo, out string, args []string) error {
 	for ti, f := range targets {
 		w.why = nil
 		m := w.meshSummary(f)
-		fmt.Fprintf(&b, "  ⟨%q, %d, [", c01DeclName(f.decl), strings.Count(fmt.Sprint(f.isMesh), "true"))
+		rank := map[int]int{}
+		for pi, im := range f.isMesh {
+			if im {
+				rank[pi] = len(rank)
+			}
+		}
+		nm := c01DeclName(f.decl)
+		if f.pkg != "modeling" {
+			nm = f.pkg + "." + nm
+		}
+		fmt.Fprintf(&b, "  ⟨%q, %d, [", nm, strings.Count(fmt.Sprint(f.isMesh), "true"))
 		for i := range m {
 			if i > 0 {
 				b.WriteString(",")
@@ -774,7 +799,7 @@ func c01Classes(repo, out string, args []string) error {
 					}
 				}
 			}
-			fmt.Fprintf(&b, " ⟨%s, %s⟩", c01Atoms(m[i].obj), c01Atoms(ent))
+			fmt.Fprintf(&b, " ⟨%s, %s⟩", c01Atoms(m[i].obj, rank), c01Atoms(ent, rank))
 		}
 		b.WriteString("]⟩")
 		if ti+1 < len(targets) {
